@@ -1,24 +1,37 @@
 /-
-  Finding F16 (C05): the model exhibits the defect the replay exhibits in the code.
+  Finding F16 (C05) — FIXED in /repo by 1454414.  Kept as a record of why the old read site was wrong.
 
-    lib  : {% macro show() %}[{{ g }}]{% endmacro %}
-    main : {% import "lib" as lib %}{{ lib.show() }}
-    env.get_template('main', globals={'g': 'GLOBAL'}).render(g='LOCAL')   →   [LOCAL]
-
-  `_get_default_module(ctx)` (environment.py:1436-1439, 1451-1454) builds the extra variables of the imported module as
-  `{k: ctx.parent[k] for k in ctx.globals_keys - self.globals.keys()}`; `ctx.parent` is `dict(globals, **render_vars)`,
-  so the render variable `g` is what the module — imported WITHOUT context — sees.  The full-strength statement
-  `C05.ImportStatement` is therefore false; `C05.import_ctx` carries the hypothesis `NoShadow`.
-  Second face (`f16_keyerror_witness`): for a context created `shared` (a template included with context that has its
-  own globals) the key can be absent from `ctx.parent` and the import raises KeyError.
+  Before the fix `_get_default_module(ctx)` built the imported module's extra variables as
+  `{k: ctx.parent[k] for k in ctx.globals_keys - self.globals.keys()}` and `Context.derived` created its context with
+  `globals=None`.  `oldTargetCtx` below is the former transcription; on the three replays it shows what the old code
+  showed, while the current model (`CtxFlow.targetCtx`, reading `ctx._globals`) gives what `C05.import_ctx` proves:
+    1. a render variable shadows the importer's global      [LOCAL] instead of [GLOBAL]
+    2. the key is absent from a shared parent               KeyError instead of [GB]
+    3. a derived context (scoped block) had no globals_keys [~] instead of [G]
   Built separately (`lake build JinjaV.Findings.F16`), not an obligation.
 -/
 import JinjaV.Props.C05
 namespace JinjaV.Findings.F16
 open JinjaV.CtxFlow JinjaV.C05
 
-/-- main loaded with globals {g: GLOBAL}, rendered with g=LOCAL, importing lib (no own globals) without context -/
-def situation : Situation String :=
+/-- `{k: parent[k] for k in keys}`; `none` = KeyError -/
+def lookupAll {α} (parent : Env α) : List Name → Option (Env α)
+  | [] => some []
+  | k :: r =>
+    match parent.get k, lookupAll parent r with
+    | some v, some e => some ((k, v) :: e)
+    | _, _ => none
+
+/-- the default-import arm of `targetCtx` as it was before 1454414 -/
+def oldTargetCtx {α} (s : Situation α) : Option (Ctx α) :=
+  match lookupAll s.ctx.parent (extraKeys s.ctx s.tgtGlobals) with
+  | none => none
+  | some extra =>
+    if extra.isEmpty then some (newContext s.tgtGlobals none false [])
+    else some (newContext s.tgtGlobals (some extra) false [])
+
+/-- 1: main loaded with globals {g: GLOBAL}, rendered with g=LOCAL, imports lib without context -/
+def shadow : Situation String :=
   { ctx := rootContext [("g", "GLOBAL")] [("g", "LOCAL")]
     locals := []
     srcGlobals := [("g", "GLOBAL")]
@@ -26,62 +39,36 @@ def situation : Situation String :=
     kind := .imp
     withCtx := false }
 
-theorem model_shows_local : (targetCtx situation).map (fun c => c.resolve "g") = some (some "LOCAL") := by decide
+theorem f16_shadow :
+    (oldTargetCtx shadow).map (fun c => c.resolve "g") = some (some "LOCAL") ∧
+    (targetCtx shadow).resolve "g" = some "GLOBAL" := ⟨by decide, by decide⟩
 
-theorem spec_says_global :
-    SpecCtxFlow.importSees false (Locals.val situation.locals) situation.ctx.resolve situation.tgtGlobals.get
-      situation.srcGlobals.get "g" = some "GLOBAL" := by decide
+/-- 2: B (own globals {g: GB}) is included with context by a template whose context has no g; B imports C -/
+def sharedParent : Situation String :=
+  { ctx := newContext [("g", "GB")] (some [("x", "1")]) true []
+    locals := []
+    srcGlobals := [("g", "GB")]
+    tgtGlobals := []
+    kind := .imp
+    withCtx := false }
 
-theorem f16_witness : ¬ ImportStatement := by
-  intro h
-  have wf : GlobalsKeysOf situation := by intro k; simp [situation, rootContext, newContext, Env.keys]
-  obtain ⟨c, hc, hs⟩ := h String situation rfl wf
-  have h1 := model_shows_local
-  rw [hc] at h1
-  have h2 := hs "g"
-  have hw : situation.withCtx = false := rfl
-  rw [hw, spec_says_global] at h2
-  simp only [Option.map_some, Option.some.injEq] at h1
-  simp only [sees] at h2
-  rw [h1] at h2
-  exact absurd h2 (by decide)
+theorem f16_keyerror :
+    (oldTargetCtx sharedParent).isNone = true ∧ (targetCtx sharedParent).resolve "g" = some "GB" :=
+  ⟨by decide, by decide⟩
 
-/-- t (own globals {g}) is included with context by a template whose context has no g; t imports lib -/
-def keyErrorSituation : Situation String :=
-  { ctx := newContext [("g", "G")] (some [("x", "1")]) true []
+/-- 3: the context of a scoped block.  `oldDerived` = `Context.derived` before the fix (globals=None) -/
+def oldDerived {α} (c : Ctx α) (l : Locals α) : Ctx α := newContext [] (some c.getAll) true l
+
+def scopedBlock (derive : Ctx String → Locals String → Ctx String) : Situation String :=
+  { ctx := derive (rootContext [("g", "G")] []) []
     locals := []
     srcGlobals := [("g", "G")]
     tgtGlobals := []
     kind := .imp
     withCtx := false }
 
-theorem f16_keyerror_witness : targetCtx keyErrorSituation = none ∧ GlobalsKeysOf keyErrorSituation := by
-  constructor
-  · have : (targetCtx keyErrorSituation).isNone = true := by decide
-    cases h : targetCtx keyErrorSituation with
-    | none => rfl
-    | some c => simp [h] at this
-  · intro k; simp [keyErrorSituation, newContext, Env.keys]
-
-/-- Third face: inside a `scoped` block the context is `Context.derived(…)`, created with `globals=None`: its
-    `globals_keys` are empty, so `GlobalsKeysOf` — the well-formedness hypothesis of `import_ctx` — does not hold and
-    the import sees none of the importing template's globals. -/
-def scopedBlockSituation : Situation String :=
-  { ctx := newContext [] (some (rootContext [("g", "G")] []).getAll) true []
-    locals := []
-    srcGlobals := [("g", "G")]
-    tgtGlobals := []
-    kind := .imp
-    withCtx := false }
-
-theorem f16_scoped_block_witness :
-    ¬ GlobalsKeysOf scopedBlockSituation ∧
-    (targetCtx scopedBlockSituation).map (fun c => c.resolve "g") = some none ∧
-    SpecCtxFlow.importSees false (Locals.val scopedBlockSituation.locals) scopedBlockSituation.ctx.resolve
-      scopedBlockSituation.tgtGlobals.get scopedBlockSituation.srcGlobals.get "g" = some "G" := by
-  refine ⟨?_, by decide, by decide⟩
-  intro h
-  have := (h "g").mpr (by simp [scopedBlockSituation, Env.keys])
-  simp [scopedBlockSituation, newContext, Env.keys] at this
+theorem f16_scoped_block :
+    (oldTargetCtx (scopedBlock oldDerived)).map (fun c => c.resolve "g") = some none ∧
+    (targetCtx (scopedBlock Ctx.derived)).resolve "g" = some "G" := ⟨by decide, by decide⟩
 
 end JinjaV.Findings.F16
